@@ -20,6 +20,22 @@ def sh(cmd, timeout=1800, cwd=None):
 def run_step(step, work, tier, seed):
     t0 = time.time()
     rep = {"id": step["id"], "kind": step["kind"], "status": "error", "msg": ""}
+    if step["kind"] == "script":
+        # supporting static fact computed by a script over /repo's text (exit 0 ok, 1 a named fact fails, else tool error)
+        cmd = ["python3", os.path.join(VERIF, step["src"])]
+        rc, out = sh(cmd, timeout=step.get("timeout", 600))
+        rep["seconds"] = round(time.time() - t0, 1); rep["output_tail"] = out[-1500:]; rep["cmd"] = " ".join(cmd)
+        for line in out.splitlines():
+            if line.startswith("STAT "):
+                k, v = line[5:].split("=", 1); rep[k.strip()] = v.strip()
+        if rc == 0:
+            rep["status"] = "ok"
+        elif rc == 1:
+            rep["status"] = "violation"; rep["msg"] = out[-3000:]; rep["obligation"] = step.get("obligation")
+            rep["has_input"] = True; rep["inputs"] = [l for l in out.splitlines() if l.startswith("FAIL ")][:5]
+        else:
+            rep["msg"] = "exit %d: %s" % (rc, out[-2000:])
+        return rep
     exe = os.path.join(work, "native_" + step["id"])
     cmd = [step.get("cxx", "g++"), "-std=c++17", "-O2"] + step.get("cflags", []) + \
           ["-I" + os.path.join(REPO, "include"), "-I" + os.path.join(VERIF, "models"),
